@@ -376,7 +376,11 @@ Definition prop_case (c : c08case) : bool :=
   | _ => check_case c
   end.
 
-(* byte-string helpers for case files *)
+(* byte-string helpers for case files: [unpack w n] = the w-byte big-endian representation of n
+   (case files write long byte strings as one hexadecimal number literal) *)
+Fixpoint unpack_acc (w : nat) (n : N) (acc : bytes) : bytes :=
+  match w with O => acc | S k => unpack_acc k (N.shiftr n 8) (N.land n 255 :: acc) end.
+Definition unpack (w : nat) (n : N) : bytes := unpack_acc w n [].
 Fixpoint set_nth (i : nat) (v : N) (l : bytes) : bytes :=
   match l, i with
   | [], _ => []
